@@ -275,10 +275,7 @@ func (h *budgetHist) exec(f []string) {
 	}
 	fmt.Fprintln(h.out, res)
 	rf := strings.Fields(res)
-	h.st.results[kind+":"+strings.Join(rf[1:min(len(rf), 3)], ":")]++
-	if kind == "A" || kind == "HB" {
-		h.st.results[kind+":"+rf[1]]++
-	}
+	h.st.results[resKey(kind, rf)]++
 	fmt.Fprintln(h.out, strings.TrimSpace("CALLS "+strings.Join(cs, " ")))
 	after := h.observe()
 	h.emit(after)
